@@ -9,7 +9,11 @@ checked on the raw output.
 
 Correspondence: (a) the real output against the Lean serializer model (as C09), (b) the Lean
 specification-side readers (`gdrv C08 readhtml / readxml`) against html.parser / expat on the
-real output — this validates the readers the round-trip theorems are stated with.
+real output — this validates the readers the round-trip theorems are stated with, (c) `expect`:
+the right-hand side of the document-level theorems (`html_roundtrip_doc_partial`,
+`xhtml_roundtrip_doc_partial`: expected tokens by recursion on the forest), computed by the driver
+from the *stream* whenever the stream is inside the theorems' hypotheses (the driver evaluates
+them and names the first one that fails), against html.parser / expat on the real output.
 """
 import json
 from harness import proto, outlib
@@ -38,15 +42,23 @@ PROFILES = [
     ('html-vocab', 5, dict(root=True, pool=4, cdata=0.05, comments=0.06, max_nodes=16, safe_text=0.05)),
     ('xhtml-ns', 3, dict(ns='xhtml', root=True, pool=4, cdata=0.08, comments=0.05, max_nodes=14)),
     ('xhtml-ns-events', 1, dict(ns='xhtml', root=True, ns_events=True, pool=4, max_nodes=12)),
-    ('prolog', 2, dict(pool=3, prolog=0.8, root=True, max_nodes=8, comments=0.05)),
+    ('prolog', 2, dict(pool=3, prolog=0.8, root=True, max_nodes=8, comments=0.05, pis=0.06, cdata=0.06)),
     ('ws', 1, dict(root=True, pool=3, texts='ws', max_nodes=12)),
+    # builder-style streams (no START_NS events) that mix XHTML-namespaced and un-namespaced elements: the
+    # flattener makes up xmlns="…" / xmlns="" at every change of namespace; few tags and attributes, so that the
+    # identical start tag recurs on both sides of such a scope boundary (seeded C08-4: the flattener's name cache
+    # reused across the boundary); the expat re-parse is compared by qualified names
+    ('mixed-ns', 3, dict(ns='mixed', root=True, pool=2, max_nodes=16, attr_counts=[0, 0, 0, 1],
+                         tags=['div', 'p', 'b', 'span', 'a', 'br'])),
+    ('mixed-ns-vocab', 1, dict(ns='mixed', root=True, pool=3, max_nodes=14, cdata=0.05, comments=0.05)),
     # LF/TAB/CR in attribute values and CR in text: outside the xhtml round trip (XML normalisation, finding
     # C08-attr-ws / C08-text-cr); the Lean readers are still compared with html.parser / expat there
     ('xml-ws', 1, dict(root=True, pool=3, attr_ws=True, text_cr=True, max_nodes=10)),
 ]
 DOCTYPE_OPTS = [None, None, ['name', 'html'], ['name', 'xhtml-strict'], ['name', 'html5'], ['name', 'XHTML11'],
                 ['tuple', 'html', None, 'about:legacy-compat'],
-                ['tuple', 'html', '-//W3C//DTD HTML 4.01//EN', 'http://www.w3.org/TR/html4/strict.dtd']]
+                ['tuple', 'html', '-//W3C//DTD HTML 4.01//EN', 'http://www.w3.org/TR/html4/strict.dtd'],
+                ['tuple', 'html', None, 'sys"tem.dtd']]
 
 
 def pick_profile(rng):
@@ -83,6 +95,9 @@ def in_domain(js, method, cfg=None):
                 return 'doctype-after-root'
             if not have_dt and method == 'xhtml' and e[2] and not e[3]:
                 return 'doctype-public-without-system'
+            if not have_dt and method == 'html' and ('>' in (e[2] or '') or '>' in (e[3] or '')):
+                # an HTML parser ends the declaration at the first '>' (known finding C08-doctype-gt-html)
+                return 'doctype-gt'
             have_dt = True
         if e[0] in ('S', 'T', 'SC'):
             started = True
@@ -161,6 +176,10 @@ def in_domain(js, method, cfg=None):
         elif k == 'PI':
             if '?>' in e[2] or (method == 'html' and '>' in e[2]):
                 return 'pi-end'
+            if method == 'xhtml' and (e[2][:1] in (' ', '\t', '\n', '\r') or e[1].lower() == 'xml'):
+                # XML: the white space between target and data is a separator (leading white space of the
+                # data cannot be written), and the target `xml` is reserved — limits of the format
+                return 'pi-not-representable'
             if stack and stack[-1] in G.RAWTEXT:
                 return 'markup-in-rawtext'
     return None
@@ -449,6 +468,7 @@ def shard(arg):
     rng = random.Random('%s/%s/C08' % (seed, idx))
     res = Result()
     lines, meta = [], []
+    ex_lines, ex_meta = [], []
     for _ in range(n):
         profile, knobs = pick_profile(rng)
         js = G.gen_stream(rng, **knobs)
@@ -485,6 +505,9 @@ def shard(arg):
                 if G.lean_char_ok(js):
                     lines.append(outlib.model_render_line(js, cfg_of(case)))
                     meta.append(case)
+                    if not strip:
+                        ex_lines.append(expect_line(case))
+                        ex_meta.append((case, why))
         if len(res.samples) < 2:
             res.samples.append({'stream': js, 'profile': profile})
     answers = proto.run_lines(lines)
@@ -511,7 +534,36 @@ def shard(arg):
         if model != realtoks:
             res.disagreements.append({'stream': 'reader', 'case': dict(case, output=real), 'model': repr(model)[:800],
                                       'real': repr(realtoks)[:800]})
+    # (c) the right-hand sides of the document-level theorems against the independent parsers
+    for (case, why), ans in zip(ex_meta, proto.run_lines(ex_lines)):
+        if ans in ('bad-op', 'unmodelled'):
+            res.count('expect:' + ans)
+            continue
+        v = reader_answer(ans)
+        if isinstance(v, list) and len(v) == 2 and v[0] == 'out':
+            res.count('expect:outside:%s:%s' % (case['method'], v[1]))
+            if not why:
+                res.count('expect:outside-but-in-oracle-domain:%s' % case['method'])
+            continue
+        if not (isinstance(v, list) and len(v) == 2 and v[0] == 'ok'):
+            res.disagreements.append({'stream': 'expect', 'case': case, 'model': repr(ans)[:300], 'real': 'ok/out answer'})
+            continue
+        real = outlib.render(case['stream'], cfg_of(case))
+        res.streams['expect'] = res.streams.get('expect', 0) + 1
+        res.count('expect:inside:%s' % case['method'])
+        if not why:
+            res.count('expect:inside-and-in-oracle-domain:%s' % case['method'])
+        realtoks = reader_canon(observed_tokens(real, case['method']), case['method']) if isinstance(real, str) else real
+        if v[1] != realtoks:
+            res.disagreements.append({'stream': 'expect', 'case': dict(case, output=real), 'model': repr(v[1])[:800],
+                                      'real': repr(realtoks)[:800]})
     return res
+
+
+def expect_line(case):
+    cfg = cfg_of(case)
+    return proto.line(Atom('C08'), Atom('expect'), Atom(case['method']), outlib.B(cfg['drop_xml_decl']),
+                      outlib.doctype_wire(cfg.get('doctype')), G.to_wire(case['stream']))
 
 
 def reader_answer(ans):
@@ -552,6 +604,19 @@ def reader_canon(toks, method):
 def features(js):
     f = set()
     stack = []
+    nsstack, ctxs, uris = [], {}, set()
+    for e in js:
+        if e[0] == 'S':
+            # the same start tag below parents of different namespaces: its flattened form must differ
+            ctxs.setdefault(json.dumps(e, sort_keys=True), set()).add(nsstack[-1] if nsstack else None)
+            nsstack.append(e[1][0])
+            uris.add(e[1][0])
+        elif e[0] == 'E' and nsstack:
+            nsstack.pop()
+    if len(uris) > 1:
+        f.add('mixed-namespaces')
+    if any(len(c - {None}) > 1 for c in ctxs.values()):
+        f.add('same-start-tag-across-namespace-scopes')
     for e in js:
         if e[0] == 'S':
             stack.append(e[1][1])
